@@ -37,6 +37,11 @@ fn inst(op: spirv::Op, rid: Option<u32>) -> dr::Instruction {
 }
 
 pub fn make_module<const NF: usize, const NB: usize, const NB1: usize, const NI: usize>() -> dr::Module {
+    make_module_ended::<NF, NB, NB1, NI>(false)
+}
+
+/// `ended`: every function already carries its OpFunctionEnd (a finished function that was selected again for editing).
+pub fn make_module_ended<const NF: usize, const NB: usize, const NB1: usize, const NI: usize>(ended: bool) -> dr::Module {
     let mut m = dr::Module::new();
     let mut f = 0;
     while f < NF {
@@ -54,6 +59,9 @@ pub fn make_module<const NF: usize, const NB: usize, const NB1: usize, const NI:
             }
             func.blocks.push(blk);
             b += 1;
+        }
+        if ended {
+            func.end = Some(inst(spirv::Op::FunctionEnd, None));
         }
         m.functions.push(func);
         f += 1;
@@ -174,7 +182,8 @@ pub fn builder_step_sel<const NF: usize, const NB: usize, const NB1: usize, cons
     let a1 = raw[10];
     let a2 = raw[11];
     let word = u32::from_le_bytes([raw[12], raw[13], raw[14], raw[15]]);
-    let mut b = core::mem::ManuallyDrop::new(Builder::verif_from_parts(make_module::<NF, NB, NB1, NI>(), next_id, sel_f, sel_b));
+    let ended = raw[0] & 2 != 0;
+    let mut b = core::mem::ManuallyDrop::new(Builder::verif_from_parts(make_module_ended::<NF, NB, NB1, NI>(ended), next_id, sel_f, sel_b));
     let before = counts(b.module_ref());
     let fn_open = sel_f.is_some();
     let blk_open = sel_b.is_some();
